@@ -41,6 +41,7 @@ import SwV.Spec.C27
 import SwV.Lemmas.C27
 import SwV.Lemmas.C27b
 import SwV.Lemmas.C27c
+import SwV.Lemmas.C27d
 import SwV.Gen.C27
 namespace SwV.Props.C27
 open SwV.Model.C19 (Bytes ltB isPrefix)
@@ -411,5 +412,83 @@ example : (walk [] 2 false true 7 ksClean []).1 =
 
 /-- `Tree2` excludes the two refuting buckets (and only by the clauses named after the findings) -/
 example : ¬ Tree2 ksUploads ∧ ¬ Tree2 ksDeep := by decide
+
+/-! ## a client that starts after a key (marker / start-after, also re-sent beside every continuation token)
+
+`resumeJudge` (Spec) is the order-free part of "continuing from the returned token enumerates every key exactly once"
+for a pagination that does not start at the beginning: no item is served twice and the last, untruncated page arrives
+within `#keys + 2` requests. The V2 handler hands the continuation token to `listFilerEntries` whenever there is one
+(`bridge_handlers`: `marker := continuationToken`, replaced by `start-after` only if `continuationToken == ""`), so a
+start-after that is sent again with the token changes nothing and the client's walk is the model's `walk` from the
+start-after key. The depth-first stream lists no key twice (`allKeys_nodup`), every continuation point stands for a
+suffix of it (`cursor_suffix`); hence: -/
+
+/-- the depth-first key stream of a depth-≤2 tree holds no key twice -/
+theorem stream_has_no_key_twice_partial (ks : List (List Bytes)) (h : Tree2 ks) : (allKeys ks).Nodup :=
+  allKeys_nodup ks h
+
+/-- THE MODEL PASSES THE START-AFTER JUDGE (partial: depth ≤ 2, no `.uploads` directory, prefix "", delimiter ""):
+    from every start-after key that is a listed key — the name of a top-level file or `dir/name` — following the
+    returned tokens serves no key twice and ends with an untruncated page, for every max-keys ≥ 1 -/
+theorem resume_judge_passes_recursive_partial (ks : List (List Bytes)) (h : Tree2 ks) (maxKeys : Nat) (hmk : 0 < maxKeys)
+    (m : Bytes) (Z : List Bytes) (hc : Cursor ks m Z) (fuel : Nat) (hfuel : Z.length < fuel) :
+    resumeJudge ks [] false true maxKeys (walk [] maxKeys false true fuel ks m).1 = none := by
+  obtain ⟨pages, hw, hex⟩ := resume_after_marker_recursive_partial ks h maxKeys hmk m Z hc fuel hfuel
+  rw [hw]
+  have hfin : finishedWalk pages = true := by
+    have := hex.ends
+    unfold finishedWalk
+    cases hl : pages.getLast? with
+    | none => rw [hl] at this; simp at this
+    | some p => rw [hl] at this; simp at this; simp [this]
+  have hnr : noRepeat (pages.flatMap (·.keys) ++ pages.flatMap (·.pfxs)) = true := by
+    rw [hex.keys, hex.pfxs, List.append_nil]
+    exact noRepeat_of_nodup Z (cursor_nodup ks h m Z hc)
+  have h0 : ¬ (maxKeys = 0 ∨ ((!true) = true ∧ false = true)) := by
+    intro hh
+    rcases hh with hh | hh
+    · omega
+    · simp at hh
+  unfold resumeJudge
+  rw [if_neg h0]
+  simp only [hfin, hnr, Bool.not_true, Bool.and_false, Bool.false_eq_true, Bool.not_false, and_self, if_true]
+
+/-- … and the walk needs no more requests than keys are left, plus one (fuel `#left + 1` suffices, which is at most
+    `#allKeys + 1`) -/
+theorem resume_within_bound_recursive_partial (ks : List (List Bytes)) (h : Tree2 ks) (maxKeys : Nat) (hmk : 0 < maxKeys)
+    (m : Bytes) (Z : List Bytes) (hc : Cursor ks m Z) :
+    Z.length ≤ (allKeys ks).length ∧
+    ∃ pages, walk [] maxKeys false true ((allKeys ks).length + 1) ks m = (pages, ks) ∧ RecExact maxKeys Z pages :=
+  ⟨cursor_length_le ks m Z hc,
+   resume_after_marker_recursive_partial ks h maxKeys hmk m Z hc _ (by have := cursor_length_le ks m Z hc; omega)⟩
+
+/-- non-vacuity: `a/b` is a continuation point of the DESIGN bucket, with `a/c a.b ab/c b` still to come -/
+example : Cursor ksClean (s "a/b") [s "a/c", s "a.b", s "ab/c", s "b"] :=
+  Cursor.dir (ks := ksClean) [] ⟨s "a", true⟩ [⟨s "a.b", false⟩, ⟨s "ab", true⟩, ⟨s "b", false⟩] [] ⟨s "b", false⟩ [⟨s "c", false⟩]
+    (by decide) rfl (by decide)
+
+/-- the bucket of the directed generator family (a directory `a/` next to `a-b` and `a.txt`, which sort below `a/`):
+    start-after `a/1`, max-keys 1 — the tokens `a-b` and `a.txt` are string-smaller than the start-after, the model
+    continues from the token all the same, five pages, every key after `a/1` once, judge silent -/
+def ksResent : List (List Bytes) := bucket ["a/1", "a/2", "a/3", "a-b", "a.txt", "b"]
+
+example : Tree2 ksResent := by decide
+
+theorem resent_start_after_walk_witness :
+    (walk [] 1 false true 8 ksResent (s "a/1")).1.map (fun p => (p.trunc, p.next, p.keys)) =
+      [(true, s "a/2", [s "a/2"]), (true, s "a/3", [s "a/3"]), (true, s "a-b", [s "a-b"]), (true, s "a.txt", [s "a.txt"]),
+       (false, [], [s "b"])] ∧
+    ltB (s "a-b") (s "a/1") = true ∧ ltB (s "a.txt") (s "a/1") = true ∧
+    resumeJudge ksResent [] false true 1 (walk [] 1 false true 8 ksResent (s "a/1")).1 = none := by decide
+
+/-- the judge is not vacuous: a server that resumes from max(token, start-after) serves page 1 again after the page that
+    ended on `a-b` — eight truncated pages on a six-key bucket — and is judged `pagination/does-not-terminate`;
+    a finished walk that served a key twice is judged `pagination/key-repeated` -/
+theorem resume_judge_rejects_witness :
+    resumeJudge ksResent [] false true 1
+      ((List.replicate 2 [⟨true, s "a/2", [s "a/2"], []⟩, ⟨true, s "a/3", [s "a/3"], []⟩, ⟨true, s "a-b", [s "a-b"], []⟩]).flatten
+        ++ [⟨true, s "a/2", [s "a/2"], []⟩, ⟨true, s "a/3", [s "a/3"], []⟩]) = some "pagination/does-not-terminate" ∧
+    resumeJudge ksResent [] false true 2
+      [⟨true, s "a/3", [s "a/2", s "a/3"], []⟩, ⟨false, [], [s "a/3", s "b"], []⟩] = some "pagination/key-repeated" := by decide
 
 end SwV.Props.C27
